@@ -366,11 +366,14 @@ class Check:
                            ['# theorem audit failed', 'theorems: %s' % bad, 'forbidden: %s' % hits, out[-2000:]],
                            found=False)
         if self.tier == 'thorough':
-            rc, out = sh(['lake', 'env', 'leanchecker', 'Pocket.Thm.' + self.prop], cwd=LEAN, timeout=3000)
-            self.extra['leanchecker_rc'] = rc
-            if rc != 0:
-                self.violation('proof', 'leanchecker rejected Pocket.Thm.%s' % self.prop,
-                               ['# leanchecker', out[-2000:]], found=False)
+            mods = ['Pocket.Thm.' + self.prop]
+            if os.path.exists(os.path.join(LEAN, 'Pocket', 'Thm', self.prop + 'Spec.lean')):
+                mods.append('Pocket.Thm.%sSpec' % self.prop)
+            for mod in mods:
+                rc, out = sh(['lake', 'env', 'leanchecker', mod], cwd=LEAN, timeout=3000)
+                self.extra['leanchecker_rc'] = max(rc, self.extra.get('leanchecker_rc', 0))
+                if rc != 0:
+                    self.violation('proof', 'leanchecker rejected %s' % mod, ['# leanchecker', out[-2000:]], found=False)
 
     # ---- running
     def run_both(self, lines):
